@@ -64,6 +64,47 @@ pub fn load_known() -> Result<Vec<Known>, String> {
     Ok(v)
 }
 
+/// An open known finding is identified by its *input*: the kept replay file.  Before a batch, every
+/// kept replay of the property is executed on the tree as it is now, and whatever site its
+/// violation of the recorded class is attributed to *today* joins the entry's keys (exact site,
+/// function, calling function).  A behaviour-preserving edit that renames the allocating function,
+/// moves its statement into a helper two calls down, inlines it into its caller or puts a nested
+/// `fn` above the keyed line (all four were tried by a red-team sub-agent and raised alarms with
+/// static keys) then leaves the finding known, while a violation the kept inputs do not produce
+/// is still new.  Nothing is written to the file.
+fn rekey_known(known: &mut Vec<Known>, prop: &str) {
+    let mut extra: Vec<Known> = Vec::new();
+    for k in known.iter().filter(|k| k.status == "open" && k.property == prop && !k.example_replay.is_empty()) {
+        let path = format!("{}/{}", verif_root(), k.example_replay);
+        let rf: ReplayFile = match std::fs::read_to_string(&path).ok().and_then(|t| serde_json::from_str(&t).ok()) {
+            Some(r) => r,
+            None => continue,
+        };
+        if let Ok(r) = exec_spec_isolated(&rf.spec, 1) {
+            for v in r.violations.iter().filter(|v| v.class == k.class) {
+                let mut fns = vec![site_fn(&v.origin)];
+                if let Some(i) = v.msg.rfind("[caller=") {
+                    fns.push(site_fn(v.msg[i + 8..].trim_end_matches(']')));
+                }
+                let mut e = k.clone();
+                e.origin = v.origin.clone();
+                e.origin_fn = String::new();
+                extra.push(e);
+                // function scope only where the entry itself is function-scoped (allocations)
+                if !k.origin_fn.is_empty() {
+                    for f in fns.into_iter().filter(|f| !f.is_empty()) {
+                        let mut e = k.clone();
+                        e.origin = String::new();
+                        e.origin_fn = f;
+                        extra.push(e);
+                    }
+                }
+            }
+        }
+    }
+    known.extend(extra);
+}
+
 fn matches_known<'a>(known: &'a [Known], prop: &str, v: &Violation) -> Option<&'a Known> {
     // for allocation deaths the frame that called the allocating function is known too: a known
     // allocation stays known when its statement was moved into a helper function (one level)
@@ -711,6 +752,8 @@ pub fn check_main(prop: &str, tier: Tier, seed: u64) -> i32 {
             return 2;
         }
     };
+    let mut known = known;
+    rekey_known(&mut known, prop);
     println!("VERIF_SEED={} property={} tier={} workers={}", seed, prop, tier.name(), workers);
     let (out, wall) = match run_batch(prop, tier, seed, workers, limit, false) {
         Ok(x) => x,
@@ -726,7 +769,10 @@ pub fn check_main(prop: &str, tier: Tier, seed: u64) -> i32 {
     for (_k, (idx, v, spec, count)) in agg.viols.iter() {
         if let Some(k) = matches_known(&known, prop, v) {
             let id = if k.origin.is_empty() { k.origin_fn.clone() } else { k.origin.clone() };
-            let e = known_hit.entry(format!("{}|{}", k.class, id)).or_insert((k.what.clone(), 0));
+            // one line per finding, whichever of its keys (static or re-keyed) matched
+            let _ = &id;
+            let first = known.iter().find(|x| x.what == k.what).map(|x| if x.origin.is_empty() { x.origin_fn.clone() } else { x.origin.clone() }).unwrap_or_default();
+            let e = known_hit.entry(format!("{}|{}", k.class, first)).or_insert((k.what.clone(), 0));
             e.1 += count;
             continue;
         }
